@@ -144,8 +144,10 @@ def c08(rep, env):
         BC.check_definition(rep, fb)
         BC.check_chunking(rep, fb)
         BM.check_definition(rep, fb, crates={"ofb"})
-        only(rep, lambda r: SM.check_ctr_backend(r, fb), pre("ctr.ks.advance", "ctr.ks.data-independent", "ctr.ks.block"))
-        only(rep, lambda r: SM.check_belt(r, fb, parts=("def",)), pre("belt.ks."))
+        # how a byte string is cut decides which blocks go through the parallel body: it must agree
+        # with the one-block kernel
+        only(rep, lambda r: SM.check_ctr_backend(r, fb), pre("ctr.ks.advance", "ctr.ks.data-independent", "ctr.ks.block", "par.closed-form"))
+        only(rep, lambda r: SM.check_belt(r, fb, parts=("def", "par")), pre("belt.ks.", "par.closed-form"))
         MI.check_stream_involution(rep, fb)
         MI.check_aliases(rep, fb)
         BM.check_dependence(rep, fb, crates={"cfb_mode", "cfb8"})
@@ -274,7 +276,7 @@ REGISTRY = {
     "C10": {"run": c10, "level": "proof", "floors": {"pos.get": 7, "pos.set": 7, "pos.counter-type": 7, "pos.core": 12}},
     "C11": {"run": c11, "level": "other", "floors": {"rem.exact": 7, "ctr.ks.advance": 6, "belt.ks.advance": 1, "wrapper.check-dominates": 3, "rem.ofb-unbounded": 1}},
     "C12": {"run": c12, "level": "proof", "floors": {"alias.same.out": 86, "alias.no-old-output": 87}},
-    "C13": {"run": c13, "level": "proof", "floors": {"cts.no-panic": 72, "cts.gate.exact": 12, "cts.gate.no-side-effect": 12, "b2b": 3, "ivsize": 21, "panic.site-covered": 40}},
+    "C13": {"run": c13, "level": "proof", "floors": {"cts.no-panic": 72, "cts.gate.exact": 12, "cts.gate.no-side-effect": 12, "b2b": 3, "ivsize": 21, "panic.site-covered": 30}},
     "C14": {"run": c14, "level": "proof", "floors": {"cts.layout": 36, "buf.def": 12, "buf.init": 2, "ofb.one-backend": 1, "ofb.same-function": 2, "alias.wrapper": 8, "keyinit.blanket": 21}},
     "C15": {"run": c15, "level": "proof", "floors": {"dep.kind": 24, "ctr.ks.data-independent": 6}},
     "C16": {"run": c16, "level": "proof", "floors": {"own.fields-by-value": 62, "own.clone-fieldwise": 58, "own.no-std": 18, "own.no-unsafe": 18, "own.calls-allow-listed": 18, "control.own": 5}},
